@@ -130,7 +130,9 @@ def _coop_task(arg):
             items.append(it)
         death = t % 2 == 0
         if death:
-            items[rnd.randrange(0, min(n, 4))]["mode"] = "die"
+            # early (the filler is still blocked), anywhere, or on the very last item (the other workers have already
+            # taken their pills and exited cleanly when this one dies)
+            items[rnd.choice([rnd.randrange(0, min(n, 4)), rnd.randrange(n), n - 1, n - 1])]["mode"] = "die"
         case = {"items": items, "n_workers": k, "schedule": {}, "combo": cbs[(t * 7 + 3) % len(cbs)], "items_as": "list", "cb": "plain", "ctx": "coop",
                 "sched_seed": rnd.getrandbits(32), "policy": rnd.choice(["random", "parent_last", "parent_first", "filler_slow", "low_worker_first"])}
         try:
